@@ -272,6 +272,8 @@ pub async fn read_http_unsized_body_to_file(
         CopyResult::ReaderErr(..) => return Err(HttpError::Truncated),
         CopyResult::WriterErr(e) => return Err(HttpError::error_saving_file(e)),
     };
+    #[cfg(feature = "verif_hooks")]
+    crate::verif::emit("BodyCopied", len, 0);
     file.close().await.map_err(HttpError::error_saving_file)?;
     if max_len < len {
         return Err(HttpError::BodyTooLong);
